@@ -39,6 +39,14 @@ func (f fakeImporter) Import(path string) (*types.Package, error) {
 			return p, nil
 		}
 	}
+	// packages of the repository itself are type-checked for real, so that constants of one package
+	// (ai.Feature values, tak.MoveType ...) can be used as keys or operands in another
+	const mod = "github.com/nelhage/taktician/"
+	if strings.HasPrefix(path, mod) {
+		if p, err := f.l.load(strings.TrimPrefix(path, mod)); err == nil && p.pkg != nil {
+			return p.pkg, nil
+		}
+	}
 	name := path
 	if i := strings.LastIndex(path, "/"); i >= 0 {
 		name = path[i+1:]
